@@ -216,10 +216,15 @@ pub fn check_mesh(
     let order = graph::topo(ctx, &[root]);
     let mut score = vec![0f64; rep.n_components];
     let mut tot = vec![0f64; rep.n_components];
+    // signed volume and total area per component (thickness = 2|V|/A)
+    let mut cvol = vec![0f64; rep.n_components];
+    let mut carea = vec![0f64; rep.n_components];
     for t in &tris {
         let (a, b, c) = (verts[t[0]], verts[t[1]], verts[t[2]]);
         let n = meshcheck::cross(meshcheck::sub(b, a), meshcheck::sub(c, a));
         let area = meshcheck::dot(n, n).sqrt() / 2.0;
+        cvol[rep.component[t[0]]] += meshcheck::dot(a, meshcheck::cross(b, c)) / 6.0;
+        carea[rep.component[t[0]]] += area;
         if area < 1e-12 {
             continue;
         }
@@ -242,6 +247,21 @@ pub fn check_mesh(
             tot[comp] += area;
         }
     }
+    if std::env::var("FV_DEBUG").is_ok() {
+        for c in 0..rep.n_components {
+            let vs: Vec<[f64; 3]> = (0..verts.len()).filter(|i| rep.component[*i] == c).map(|i| verts[i]).collect();
+            let mut lo = [f64::MAX; 3];
+            let mut hi = [f64::MIN; 3];
+            for v in &vs {
+                for k in 0..3 {
+                    lo[k] = lo[k].min(v[k]);
+                    hi[k] = hi[k].max(v[k]);
+                }
+            }
+            let nt = tris.iter().filter(|t| rep.component[t[0]] == c).count();
+            eprintln!("component {c}: {} vertices, {nt} triangles, judged area {:.5}, score {:.5}, volume {:.6}, area {:.5}, bbox {lo:?} .. {hi:?}", vs.len(), tot[c], score[c], cvol[c], carea[c]);
+        }
+    }
     st.add("components", rep.n_components as u64);
     // (judged only when the grid resolves the generator's features: on a
     // coarser grid the centroid of a triangle is far from the surface and the
@@ -257,10 +277,19 @@ pub fn check_mesh(
             .map(|j| (0..3).map(|i| (su.mat[(i, j)] as f64).powi(2)).sum::<f64>().sqrt())
             .fold(0f64, f64::max);
         let h = 2.0 / (1u32 << su.depth) as f64 * s_max;
-        if volume_check && tot[c] >= 100.0 * h * h {
+        // ... and of substantial thickness: a sheet thinner than a cell
+        // (2|V|/A < h, e.g. what is left of a torus after a cylinder that
+        // almost fills its hole was subtracted: area 0.16, volume 0.0007) has
+        // its two faces inside the same cells, and neither the mesh nor the
+        // gradient at a centroid says which face is which
+        let thick = carea[c] > 0.0 && 2.0 * cvol[c].abs() / carea[c] >= h;
+        if volume_check && tot[c] >= 100.0 * h * h && !thick {
+            st.inc("components_not_judged_thinner_than_a_cell");
+        }
+        if volume_check && tot[c] >= 100.0 * h * h && thick {
             st.inc("components_judged_for_orientation");
         }
-        if volume_check && tot[c] >= 100.0 * h * h && score[c] < -0.5 * tot[c] {
+        if volume_check && tot[c] >= 100.0 * h * h && thick && score[c] < -0.5 * tot[c] {
             return Some(("orientation:inward_component".into(),
                 format!("a connected component is wound inward (area-weighted agreement {:.2})", score[c] / tot[c]),
                 json!({"depth": su.depth, "backend": if su.jit { "jit" } else { "vm" }, "world_to_model": format!("{:?}", su.mat), "component": c})));
@@ -352,8 +381,6 @@ fn check_prog(p: &Prog, seed: u64, tier: Tier, st: &mut Stats) -> Option<(String
 fn check_prog_(p: &Prog, seed: u64, tier: Tier, st: &mut Stats, axis_aligned: bool) -> Option<(String, String, Value)> {
     let mut rng = Rng::new(seed);
     let rng = &mut rng;
-    let b = p.build();
-    let root = built_root(p, &b);
     let max_depth = tier.pick(5, 6);
     let su = MeshSetup {
         depth: if rng.chance(0.45) { max_depth as u8 } else { 1 + rng.below(max_depth) as u8 },
@@ -361,6 +388,27 @@ fn check_prog_(p: &Prog, seed: u64, tier: Tier, st: &mut Stats, axis_aligned: bo
         jit: rng.chance(0.5),
         pool: if rng.chance(0.5) { None } else { Some(rng.below(POOL_SIZES.len())) },
     };
+    check_with_setup(p, &su, rng, st)
+}
+
+/// Parses the `Debug` rendering of a nalgebra matrix ("[[c0r0, c0r1, ..], [c1r0, ..], ..]",
+/// column by column)
+pub fn parse_mat4(s: &str) -> Option<Matrix4<f32>> {
+    let nums: Vec<f32> = s
+        .split(|c: char| c == '[' || c == ']' || c == ',' || c.is_whitespace())
+        .filter(|t| !t.is_empty())
+        .map(|t| t.parse::<f32>())
+        .collect::<Result<_, _>>()
+        .ok()?;
+    if nums.len() != 16 {
+        return None;
+    }
+    Some(Matrix4::from_column_slice(&nums))
+}
+
+fn check_with_setup(p: &Prog, su: &MeshSetup, rng: &mut Rng, st: &mut Stats) -> Option<(String, String, Value)> {
+    let b = p.build();
+    let root = built_root(p, &b);
     if !surface_inside(&b.ctx, root, &su.mat) {
         st.inc("scenes_rejected_surface_not_inside");
         return None;
@@ -438,6 +486,25 @@ impl Prop for C08 {
             st.violation(case, sig, msg, json!({"detail": detail, "shape": p.to_json(), "check_seed": seed.to_string()}));
         }
     }
+    fn replay_detail(&self, replay: &Value, st: &mut Stats) -> bool {
+        let d = &replay["detail"];
+        let (Some(p), Some(mat)) = (Prog::from_json(&d["shape"]), d["detail"]["world_to_model"].as_str().and_then(parse_mat4)) else {
+            return false;
+        };
+        let Some(depth) = d["detail"]["depth"].as_u64() else { return false };
+        let pool = d["detail"]["threads"].as_u64().and_then(|t| POOL_SIZES.iter().position(|s| *s as u64 == t));
+        let su = MeshSetup { depth: depth as u8, mat, jit: d["detail"]["backend"].as_str() == Some("jit"), pool };
+        let seed = d["check_seed"].as_str().and_then(|s| s.parse::<u64>().ok()).unwrap_or(1);
+        // the sampling of the mesh checks is random: try a few streams
+        for k in 0..4 {
+            let mut rng = Rng::new(seed ^ k);
+            if let Some((sig, msg, detail)) = check_with_setup(&p, &su, &mut rng, st) {
+                st.violation(replay["case"].as_u64().unwrap_or(0), sig, msg, json!({"detail": detail, "shape": p.to_json()}));
+                break;
+            }
+        }
+        true
+    }
     fn finish(&self, st: &mut Stats, tier: Tier) {
         for d in 1..=tier.pick(5, 6) {
             if st.get(&format!("depth_{d}")) < 20 {
@@ -458,6 +525,7 @@ impl Prop for C08 {
         vec![
             "'degenerate' = repeated vertex index; zero-area slivers are legal in dual contouring".into(),
             "volume is judged only when the cell size is at most a third of the generator's smallest feature".into(),
+            "orientation is judged per connected component of at least 100 cells' area and at least one cell's thickness (2|V|/A >= h), with a decisive area-weighted verdict (< -0.5)".into(),
         ]
     }
 }
